@@ -310,16 +310,22 @@ LawScope ==
 
 C06Ys ==
   {Orig(<<cA>>), Orig(<<cA, NL>>), Raw("str", <<98, NL>>), Raw("str", <<98>>),
-   SmsA, SmsB, SmsC, SmsD}
+   SmsA, SmsB, SmsC, SmsD,
+   \* children whose own final-mode stream carries closings and empty pieces
+   Raw("str", <<>>), CC(<<Orig(<<cA>>), Raw("str", <<98>>)>>),
+   CC(<<Orig(<<cA, NL>>), Raw("str", <<>>)>>),
+   Replace(Orig(<<cA, NL, cA>>), <<Repl(1, 2, <<cX>>)>>)}
+
+ObsAllF(r) == ObsAll(r) \o <<[op |-> "stream", r |-> r, columns |-> TRUE, final |-> TRUE]>>
 
 ConcatChildrenProg(a, b, c) ==
-  Prog(<<[op |-> "build", dst |-> 1, tree |-> a]>> \o ObsAll(1)
-       \o <<[op |-> "build", dst |-> 2, tree |-> b]>> \o ObsAll(2)
-       \o <<[op |-> "build", dst |-> 3, tree |-> c]>> \o ObsAll(3)
+  Prog(<<[op |-> "build", dst |-> 1, tree |-> a]>> \o ObsAllF(1)
+       \o <<[op |-> "build", dst |-> 2, tree |-> b]>> \o ObsAllF(2)
+       \o <<[op |-> "build", dst |-> 3, tree |-> c]>> \o ObsAllF(3)
        \o <<[op |-> "build", dst |-> 0,
              tree |-> CC(<<[k |-> "reg", r |-> 1], [k |-> "reg", r |-> 2],
                           [k |-> "reg", r |-> 3]>>)]>>
-       \o ObsAll(0)
+       \o ObsAllF(0)
        \o <<[op |-> "law", law |-> "concat_children", r |-> 0,
              children |-> <<1, 2, 3>>]>>)
 
